@@ -26,14 +26,23 @@ class LayerRunner:
         def is_layer(recv):
             return recv[0] == "obj" and recv[1].cls is not None and base in repo.mro(recv[1].cls)
 
+        def meta(it, env, e, v):
+            o = env.get("@owner")
+            m = {"site": "%s in %s.%s" % (unparse(e) if e is not None else "?", o.name if o is not None else "?", env.get("@fname", "?")), "asked": tuple(it.asked)}
+            if v[0] == "node":
+                m["children"] = tuple(c.tag[1] if isinstance(c, Node) and c.tag is not None and c.tag[0] == "c" else "?" for k, c in v[1].children)
+            return m
+
         def up(it, recv, args, kwargs, env, depth, e):
             if is_layer(recv):
-                it.emit("UP", args[0] if args else C_NONE)
+                v = it.force(args[0]) if args else C_NONE
+                it.emit("UP", v, meta(it, env, e, v))
                 return C_NONE
 
         def down(it, recv, args, kwargs, env, depth, e):
             if is_layer(recv):
-                it.emit("DOWN", args[0] if args else C_NONE)
+                v = it.force(args[0]) if args else C_NONE
+                it.emit("DOWN", v, meta(it, env, e, v))
                 return C_NONE
 
         def emit(it, recv, args, kwargs, env, depth, e):
